@@ -1,4 +1,5 @@
 import SparseV.Props.C09
+import SparseV.Props.C09Gcxs
 #print axioms SparseV.C09.triu_get
 #print axioms SparseV.C09.tril_get
 #print axioms SparseV.C09.triu_keys_sublist
@@ -12,3 +13,7 @@ import SparseV.Props.C09
 #print axioms SparseV.C09.diagSrc_spec
 #print axioms SparseV.locate_spec
 #print axioms SparseV.locate_unique
+#print axioms SparseV.C09.gcxs_splice_spec
+#print axioms SparseV.C09.gcxs_concat_wf
+#print axioms SparseV.C09.gcxs_concat_get
+#print axioms SparseV.C09.gcxs_stack_get
